@@ -444,6 +444,66 @@ fn racing_history(lane_no: u64, ops: &Arc<dyn GlobalOps>, round: u64, rep: &Repo
     true
 }
 
+/// several threads attach to the detached global at the same moment: exactly one wins, the others
+/// get the documented panic, and entries go to the winner's sink only
+fn racing_attach(lane_no: u64, ops: &Arc<dyn GlobalOps>, round: u64, rep: &Report) -> bool {
+    for sub in 0..12u64 {
+        let n = 2 + ((round + sub) % 3) as usize;
+        let arrived = Arc::new(std::sync::atomic::AtomicUsize::new(0));
+        let sinks: Vec<CountingSink> = (0..n).map(|_| CountingSink::new()).collect();
+        let threads: Vec<_> = (0..n)
+            .map(|i| {
+                let (ops, arrived, sink) = (ops.clone(), arrived.clone(), sinks[i].clone());
+                std::thread::spawn(move || {
+                    arrived.fetch_add(1, Ordering::SeqCst);
+                    while arrived.load(Ordering::SeqCst) < n {
+                        std::hint::spin_loop();
+                    }
+                    for _ in 0..((round + sub + i as u64) % 4) * 15 {
+                        std::hint::spin_loop();
+                    }
+                    catch_unwind(AssertUnwindSafe(|| ops.attach(sink))).ok()
+                })
+            })
+            .collect();
+        let handles: Vec<Option<AttachHandle>> = threads.into_iter().map(|t| t.join().expect("attacher thread")).collect();
+        let winners: Vec<usize> = handles.iter().enumerate().filter_map(|(i, h)| h.is_some().then_some(i)).collect();
+        let witness = |what: &str, extra: vcommon::serde_json::Value| json!({"what": what, "round": round, "sub_round": sub, "concurrent_attachers": n, "attach_succeeded_for": winners, "extra": extra});
+        if winners.len() != 1 {
+            rep.violation(
+                if winners.is_empty() { "attach-on-detached-global-panicked" } else { "attach-while-attached-did-not-panic" },
+                witness("concurrent attach() calls on a detached global: exactly one may succeed (the others attach while attached and must panic)", json!({})),
+            );
+            return false;
+        }
+        let w = winners[0];
+        let base = make_id(2000 + lane_no as u32, (sub as u32) << 8);
+        for k in 0..3u64 {
+            if ops.try_append(IdEntry { id: base + k }).is_err() {
+                rep.violation("attached-sink-refused-entry", witness("try_append handed the entry back although an attach succeeded", json!({"k": k})));
+                return false;
+            }
+        }
+        let got: Vec<Vec<u64>> = sinks.iter().map(|s| s.snapshot().iter().filter_map(|a| a.u64_field("id")).collect()).collect();
+        for (i, g) in got.iter().enumerate() {
+            let want: Vec<u64> = if i == w { (0..3).map(|k| base + k).collect() } else { vec![] };
+            if *g != want {
+                rep.violation("entry-routed-to-wrong-destination", witness("after concurrent attaches the entries must be in the winner's sink only", json!({"sink": i, "got": g, "want": want})));
+                return false;
+            }
+        }
+        drop(handles);
+        if ops.try_append(IdEntry { id: base + 9 }).is_ok() {
+            rep.violation("entry-accepted-with-no-destination", witness("after the only successful attach handle was dropped, try_append still accepted an entry", json!({})));
+            return false;
+        }
+        rep.count("racing_attach_rounds", 1);
+        rep.count(&format!("racing_attach_winner_was_thread_{}", w.min(3)), 1);
+    }
+    rep.distinct(Fnv::new().str("race-attach").u64(round).u64(lane_no).finish());
+    true
+}
+
 fn main() {
     std::panic::set_hook(Box::new(|_| {})); // expected panics are part of the histories
     let args = Args::parse();
@@ -453,6 +513,7 @@ fn main() {
          install/drop of a runtime test sink for one of 2 tokio runtimes (from any thread), append / try_append / sink().append from any thread inside either runtime context or none; every op's outcome \
          (destination, documented panic, entry handed back unchanged) is compared with a reference routing state machine (thread > runtime > attached > none) and at the end every destination must have received exactly \
          the predicted ids in order; after expected panics the history continues. Racing part: 3 threads try_append while the handle of a BackgroundQueue-backed attachment is dropped: Ok <=> written before the drop returned. \
+         Racing attach: 2-4 threads attach to the detached global at once: exactly one succeeds, the rest panic, entries reach the winner's sink only. \
          distinct = distinct op histories / races with both outcomes",
     );
     let budget = Duration::from_secs(args.get_u64("secs", args.by_tier(8, 100)));
@@ -484,6 +545,11 @@ fn main() {
                         // the racing part needs the global detached
                         lane.step(&Op::DetachDrop, &[], rep);
                         if !racing_history(lane_no, &ops, round, rep) {
+                            return;
+                        }
+                    } else if round % 8 == 2 {
+                        lane.step(&Op::DetachDrop, &[], rep);
+                        if !racing_attach(lane_no, &ops, round, rep) {
                             return;
                         }
                     } else if !history(&mut lane, &mut rng, rep) {
